@@ -471,14 +471,20 @@ def _parse_schema(
         logical_type = parsed_schema.get("logicalType")
         if logical_type == "decimal":
             scale = parsed_schema.get("scale")
-            if scale and (not isinstance(scale, int) or scale < 0):
+            if scale is not None and (
+                isinstance(scale, bool) or not isinstance(scale, int) or scale < 0
+            ):
                 raise SchemaParseException(
                     f"decimal scale must be a positive integer, not {scale}"
                 )
 
             precision = parsed_schema.get("precision")
-            if precision:
-                if not isinstance(precision, int) or precision <= 0:
+            if precision is not None:
+                if (
+                    isinstance(precision, bool)
+                    or not isinstance(precision, int)
+                    or precision <= 0
+                ):
                     raise SchemaParseException(
                         "decimal precision must be a positive integer, "
                         + f"not {precision}"
@@ -493,7 +499,7 @@ def _parse_schema(
                             + f"into array of length {size}"
                         )
 
-            if scale and precision and precision < scale:
+            if scale is not None and precision is not None and precision < scale:
                 raise SchemaParseException(
                     "decimal scale must be less than or equal to "
                     + f"the precision of {precision}"
